@@ -6,6 +6,7 @@ callees replaced by stubs that run the nested part of the history), with the reg
 History (JSON, shared with lean/Pfst/Drv/C12.lean):
   ["raise", catchable] | ["with", root, node, raw, force, [body]] | ["unpar", root, node, do1, [b1], do2, [b2]]
   | ["try", catchAll, [body]] | ["put", root, node, raw(false|"auto"|true), force, guardFails, [handler], [rawBody]]
+  | ["rootrep", root, 0, guardFails, [body]]     (the root branch of FST.replace; body always ends in a raise, see below)
 Python-only details (which field, which guard, slice or one, which exception class) travel in a parallel dict keyed by
 the id of the list object.
 """
@@ -104,7 +105,7 @@ class HistGen:
         if d >= 5:
             k = r.choice(['raise', 'with0'])
         else:
-            k = r.choice(['raise', 'with', 'with', 'with', 'with', 'try', 'put', 'put', 'putslice', 'unpar'])
+            k = r.choice(['raise', 'with', 'with', 'with', 'with', 'try', 'put', 'put', 'putslice', 'unpar', 'rootrep'])
         if k == 'raise':
             c = r.random() < 0.5
             return self.mk(['raise', c], cls=r.choice(['node', 'syntax', 'notimpl']) if c else r.choice(['plain', 'value', 'key']))
@@ -125,6 +126,14 @@ class HistGen:
             return self.mk(['with', ri, ni, bool(raw), force, [] if k == 'with0' else self.body(d, (ri, ni))], field=field, raw=raw)
         if k == 'try':
             return self.mk(['try', r.random() < 0.6, self.body(d, cur)])
+        if k == 'rootrep':
+            # FST.replace on the root of a tree: guards first, then `with self._modifying():` around code_as_all (stubbed
+            # to run the body and then raise, so that the real tree is never actually replaced)
+            ri = cur[0] if cur is not None and r.random() < 0.6 else r.randrange(len(self.trees))
+            guard = r.choice(['none', 'to', 'circular', 'consumed']) if r.random() < 0.3 else None
+            c = r.random() < 0.5
+            body = self.body(d, (ri, 0), 2) + [self.mk(['raise', c], cls='node' if c else 'plain')]
+            return self.mk(['rootrep', ri, 0, guard is not None, body], guard=guard)
         if k == 'unpar':
             cands = [(ri, ni) for ri, t in enumerate(self.trees) for ni in t[4]]
             if cur is not None and cur[1] in self.trees[cur[0]][4] and r.random() < 0.5:
@@ -176,6 +185,8 @@ def systematic(tree_i, node_i):
 class Runner:
     def __init__(self, trees, info):
         self.fst, self.core, self.p1, self.ps = _mods()
+        import fst.fst as fstmod
+        self.fstmod = fstmod
         self.trees = trees
         self.info = info
         self.trace = []
@@ -202,7 +213,8 @@ class Runner:
         runner = self
         self._saved = (M.enter, M.success, M.fail, dict(self.p1._PUT_ONE_HANDLERS), self.p1._put_one_raw,
                        dict(self.ps._PUT_SLICE_HANDLERS), self.ps._put_slice_raw, self.fst.FST.pars,
-                       self.fst.FST._unparenthesize_grouping, self.fst.FST._undelimit_node, self.fst.FST._reparse_raw)
+                       self.fst.FST._unparenthesize_grouping, self.fst.FST._undelimit_node, self.fst.FST._reparse_raw,
+                       self.fstmod.code_as_all)
         o_enter, o_success, o_fail = M.enter, M.success, M.fail
 
         def enter(self):
@@ -273,10 +285,17 @@ class Runner:
         self.fst.FST._undelimit_node = undelimit
         self.fst.FST._reparse_raw = reparse_raw
 
+        def code_as_all(code, *a, **k):
+            runner.run_items(runner.stack[-1]['rootrep'])
+            raise AssertionError('a rootrep body must end in a raise')
+
+        self.fstmod.code_as_all = code_as_all
+
     def uninstall(self):
         M = self.core._Modifying
-        (M.enter, M.success, M.fail, one, one_raw, slc, slc_raw, pars, ug, ud, rr) = self._saved
+        (M.enter, M.success, M.fail, one, one_raw, slc, slc_raw, pars, ug, ud, rr, caa) = self._saved
         self.fst.FST._reparse_raw = rr
+        self.fstmod.code_as_all = caa
         self.p1._PUT_ONE_HANDLERS.clear()
         self.p1._PUT_ONE_HANDLERS.update(one)
         self.p1._put_one_raw = one_raw
@@ -321,6 +340,24 @@ class Runner:
             except Exception:
                 if not it[1]:
                     raise
+            return
+        if k == 'rootrep':
+            root = self.trees[it[1]][0]
+            guard = info.get('guard')
+            code, opts = 'c12code', {}
+            if guard == 'none':
+                code = None
+            elif guard == 'to':
+                opts['to'] = self.trees[it[1]][1][-1]
+            elif guard == 'circular':
+                code = root
+            elif guard == 'consumed':
+                code = self.consumed
+            self.stack.append({'rootrep': it[4]})
+            try:
+                root.replace(code, **opts)
+            finally:
+                self.stack.pop()
             return
         if k == 'unpar':
             node = self.trees[it[1]][1][it[2]]
@@ -401,7 +438,7 @@ def stats(prog):
                 best[0] = max(best[0], d)
             for x in it[1:]:
                 if isinstance(x, list):
-                    go(x, d + (1 if it[0] in ('with', 'put', 'unpar') else 0))
+                    go(x, d + (1 if it[0] in ('with', 'put', 'unpar', 'rootrep') else 0))
 
     go(prog, 0)
     return best[0], best[1], sorted(kinds)
